@@ -200,6 +200,15 @@ def c11(tier):
             big.append({"cfg": cfg, "unit": 10, "mode": "machine", "eps": [1, 100000000], "float": "f64",
                         "xs": walk(rnd, 200 if tier == "quick" else 1000, 100, 1000, 60), "k": 1})
     run.submit(p3_stream_job, "ehlers-big", "C11", big)
+    # the same definitions on the same histories in units of 2^-70 and 2^60 (exact changes of unit; the real answers of the linear
+    # filters are converted back exactly, those of the normalised indicators are compared as they are): no absolute threshold
+    # or additive epsilon may take part in the recursions
+    for n, L in (((3, 6),) if tier == "quick" else ((2, 7), (3, 8), (5, 9))):
+        inv = [v for v in views(n) if v["k"] in ("LaguerreRSI", "TrendFlex", "ReFlex", "EhlersFisherTransform")]
+        lin = [v for v in views(n) if v["k"] in ("SuperSmoother", "RoofingFilter", "CyberCycle")] + lag[:2]
+        for k in (-70, 60):
+            run.submit(p1_job, "units-inv-n%d-p%d" % (n, k), "MC_Def", {"prop": "C11", "cfgs": inv, "alphabet": [0, 1, 3], "unit": 1, "maxlen": L, "pow2": k})
+            run.submit(p1_job, "units-lin-n%d-p%d" % (n, k), "MC_Def", {"prop": "C11", "cfgs": lin, "alphabet": [0, 1, 3], "unit": 1, "maxlen": L, "pow2": k, "outpow2": -k})
     run.submit(p1_job, "laguerre", "MC_Def", {"prop": "C11", "cfgs": lag, "alphabet": [-2, 0, 1, 3], "unit": 1, "maxlen": 6 if tier == "quick" else 8})
     return run.finish(RULE_DEF)
 
